@@ -281,3 +281,82 @@ Example C09_empty_short_else_in_domain :
 Proof.
   eexists _, _. split; [vm_compute; reflexivity|]. split; [vm_compute; reflexivity|]. split; vm_compute; reflexivity.
 Qed.
+
+(* ------------------------------------------------------------------ the written text, lexed again *)
+From PV Require Spec.LuaLex Spec.SameCode Model.Lexer Model.LexToken Proofs.FmtRelexMain.
+
+(* the token-level clause: "its output contains exactly the input's tokens and comments, in order, with identical
+   spelling (comments up to white space inside them); ... and the token count is unchanged".
+   For every byte string src of the reference dialect (Spec/LuaLex.v: spec_lex src = Some _), lts the tokens of the
+   lexer model (Model/Lexer.v; C07: they are the reference tokens), seen by the parser as map lex_token lts: if the
+   parser model reads them to the end and the tree lies in the writer's domain, then luafmt (every indent width w)
+   writes a text out that is again a byte string of the reference dialect, the lexer model reads it, and the tokens
+   it reads have the same code view (Spec/SameCode.v same_code, the predicate the monitor evaluates on the real
+   output): the same significant tokens, class and code, in the same order, and between them exactly the same
+   comments, in order, with the same bytes outside white space.  In particular no end-of-line comment swallows
+   code, no two tokens are glued, no block comment ends early, the token count is unchanged.
+   Proof (Proofs/FmtRelex*.v): a byte-level automaton for white-space / comment text; every re.sub of
+   LuaFormatterWriter._get_code_for_spaces is neutral for it in every state (fmt_run_arun); the automaton and the
+   reference lexer agree on trivia text (seg_arun, arun_seg); a code token is read back in front of the same first
+   byte / a blank / a line feed / nothing (sig_relex: Proofs/SpecLexChunk.v step_ctx and the per-kind lemmas of C01);
+   unless it is the first thing in the file a formatted run still begins with white space if the run did and is
+   empty only at the end of the file (fmt_hd); main induction relex_rend over the aligned chunk list of C09_aligned. *)
+Theorem C09_same_code : forall w src ss lts root e,
+  Forall byte src -> LuaLex.spec_lex src = Some ss -> Lexer.model_lex [src] = Ok lts ->
+  lua_parse (map LexToken.lex_token lts) = Ok (root, e) -> consumed (map LexToken.lex_token lts) e = true ->
+  writable (map LexToken.lex_token lts) root = true ->
+  exists out ss' lts',
+    writer_text (fmt_spaces w) (map LexToken.lex_token lts) (view root) = Ok out /\ Forall byte out /\
+    LuaLex.spec_lex out = Some ss' /\ Lexer.model_lex [out] = Ok lts' /\
+    SameCode.same_code (map LexToken.lex_token lts) (map LexToken.lex_token lts') = true.
+Proof. exact FmtRelexMain.luafmt_same_code. Qed.
+Print Assumptions C09_same_code.
+
+(* the same for the echo writer LuaASTEchoWriter (its text is the codes of the input's tokens, C09_whitespace_only) *)
+Theorem C09_echo_same_code : forall src ss lts root e,
+  Forall byte src -> LuaLex.spec_lex src = Some ss -> Lexer.model_lex [src] = Ok lts ->
+  lua_parse (map LexToken.lex_token lts) = Ok (root, e) -> consumed (map LexToken.lex_token lts) e = true ->
+  writable (map LexToken.lex_token lts) root = true ->
+  exists out ss' lts',
+    writer_text echo_spaces (map LexToken.lex_token lts) (view root) = Ok out /\ Forall byte out /\
+    LuaLex.spec_lex out = Some ss' /\ Lexer.model_lex [out] = Ok lts' /\
+    SameCode.same_code (map LexToken.lex_token lts) (map LexToken.lex_token lts') = true.
+Proof. exact FmtRelexMain.echo_same_code. Qed.
+Print Assumptions C09_echo_same_code.
+
+(* run level: the formatter pipeline does not change what the trivia automaton sees - the comments of the run, in order,
+   each with its bytes outside white space, and whether the run ends inside an end-of-line comment - whatever the
+   position flags, indent width and depth *)
+Theorem C09_run_same_comments : forall cfg r V,
+  FmtRelexAuto.arun (V, FmtRelexAuto.AN) (fmt_run cfg r) = FmtRelexAuto.arun (V, FmtRelexAuto.AN) r.
+Proof. exact FmtRelexAuto.fmt_run_arun. Qed.
+Print Assumptions C09_run_same_comments.
+
+(* non-vacuity: a program with comments of all three kinds (`--`, `//`, `--[[ ]]` over two lines), adjacent tokens
+   `x=-1`, `a..b`, `f"s"`, a one-line if with else directly after a block comment and a tab in front of a comment
+   satisfies the hypotheses; luafmt (width 2) changes its text, the lexer model reads the new text and the code
+   view is the same *)
+Definition C09_relex_src : list Z := unBS "-- header
+x=-1 // c2
+y=a..b f""s""
+--[[ block
+  comment ]] if (x) y=2 else y=3
+z = {1,2}	-- tab
+"%bs.
+
+Example C09_same_code_nonvacuous :
+  exists ss lts root e,
+    Forall byte C09_relex_src /\ LuaLex.spec_lex C09_relex_src = Some ss /\ Lexer.model_lex [C09_relex_src] = Ok lts /\
+    lua_parse (map LexToken.lex_token lts) = Ok (root, e) /\ consumed (map LexToken.lex_token lts) e = true /\
+    writable (map LexToken.lex_token lts) root = true /\
+    exists out lts',
+      writer_text (fmt_spaces 2) (map LexToken.lex_token lts) (view root) = Ok out /\ zlist_eqb out C09_relex_src = false /\
+      Lexer.model_lex [out] = Ok lts' /\
+      SameCode.same_code (map LexToken.lex_token lts) (map LexToken.lex_token lts') = true.
+Proof.
+  eexists _, _, _, _. split.
+  { apply Forall_forall. intros x Hx. apply byteb_spec. revert x Hx. apply forallb_forall. vm_compute. reflexivity. }
+  split; [vm_compute; reflexivity|]. split; [vm_compute; reflexivity|]. split; [vm_compute; reflexivity|].
+  split; [vm_compute; reflexivity|]. split; [vm_compute; reflexivity|].
+  eexists _, _. split; [vm_compute; reflexivity|]. split; [vm_compute; reflexivity|]. split; vm_compute; reflexivity.
+Qed.
